@@ -1,5 +1,5 @@
 (* Obligations over the REGENERATED templates (Templates.v) — compiled at check time. *)
-From Coq Require Import QArith Qfield List Bool PArith NArith.
+From Coq Require Import QArith Qfield List Bool PArith NArith Lia.
 From PV Require Import Base.PyData Base.Expr Base.Interp Base.Stmts C09.Model C09.Proofs C09.ProofsExec C09.Properties.
 From PVGen.C09 Require Import Templates.
 Import ListNotations.
@@ -51,6 +51,14 @@ Theorem dispatch_tables :
   effect_dispatch = doc_effect_dispatch /\ effect_ops = doc_ops /\
   iiv_dispatch = doc_iiv_dispatch /\ iiv_ops = doc_ops.
 Proof. repeat split; reflexivity. Qed.
+
+(* the names one add_iov call declares continue the numbering: IOV_<first+i-1> and ETAI<first+i-1> carry the same
+   index, strictly increasing in i and never below the first free number (so two calls cannot collide) *)
+Theorem iov_numbering :
+  iov_name_prefix = str [73; 79; 86; 95]%nat /\ etai_name_prefix = str [69; 84; 65; 73]%nat /\
+  forall first i, (1 <= i)%nat ->
+    iov_name_index first i = (first + i - 1)%nat /\ etai_name_index first i = iov_name_index first i.
+Proof. repeat split; try reflexivity; unfold iov_name_index, etai_name_index; Lia.lia. Qed.
 
 Theorem gen_templates_equiv : templates_equiv gen_templates doc_templates.
 Proof.
